@@ -312,6 +312,15 @@ def impl_mul_case(ctx, a, c):
     out = {"result": val(C), "a_after": val(A), "same_object": C is A}
     if val(A) != va:
         ctx.monitor_fail("mul-alters-operand", f"`a * {c}` altered its operand: {va} -> {val(A)}", {"op": "mul", "a": a, "c": c})
+    if c >= 1:
+        # what `a * c` asks for, stated on the operand: c times its GPUs, its CPU and its duration
+        vc = val(C)
+        key = lambda g: (g["memory"], g["min_memory"])
+        want_gpus = sorted(va["gpus"] * c, key=key)
+        if vc["cpu"] != va["cpu"] or vc["duration"] != va["duration"] or sorted(vc["gpus"], key=key) != want_gpus:
+            lost = [k for k in ("cpu", "duration") if vc[k] != va[k]] + (["gpus"] if sorted(vc["gpus"], key=key) != want_gpus else [])
+            ctx.monitor_fail(f"mul-drops-requirement:{'+'.join(lost)}",
+                             f"`a * {c}` does not request {c} times what `a` requests: a = {va}, a * {c} = {vc}", {"op": "mul", "a": a, "c": c})
     return out, va
 
 
